@@ -1,6 +1,7 @@
 package main
 
 import (
+	"go/token"
 	"fmt"
 	"go/ast"
 	"go/types"
@@ -646,38 +647,70 @@ func c01Rec(r *Run) {
 	// a depth guard: a function that increments an integer field, compares it with a limit and
 	// returns an error control when exceeded; a function is guarded if it is such a guard or calls
 	// one and leaves when the guard answers non-nil
+	// a depth-guard function: it increments an integer field of its receiver, compares that same
+	// field with a limit (>, >=) and has a branch that hands back a non-nil control/error
 	isGuardFn := func(fd *ast.FuncDecl) bool {
-		if fd == nil {
+		if fd == nil || fd.Body == nil {
 			return false
 		}
-		incr, cmp := false, false
+		incr := map[string]bool{}
 		ast.Inspect(fd.Body, func(n ast.Node) bool {
 			switch x := n.(type) {
 			case *ast.IncDecStmt:
-				if _, ok := ast.Unparen(x.X).(*ast.SelectorExpr); ok && x.Tok.String() == "++" {
-					incr = true
+				if se, ok := ast.Unparen(x.X).(*ast.SelectorExpr); ok && x.Tok == token.INC {
+					incr[exprStr(se)] = true
 				}
-			case *ast.BinaryExpr:
-				if (x.Op.String() == ">" || x.Op.String() == ">=") && strings.Contains(strings.ToLower(exprStr(x.X)), "depth") {
-					cmp = true
+			case *ast.AssignStmt:
+				if x.Tok == token.ADD_ASSIGN && len(x.Lhs) == 1 {
+					if se, ok := ast.Unparen(x.Lhs[0]).(*ast.SelectorExpr); ok {
+						incr[exprStr(se)] = true
+					}
 				}
 			}
 			return true
 		})
-		return incr && cmp
+		if len(incr) == 0 {
+			return false
+		}
+		rejects := false
+		ast.Inspect(fd.Body, func(n ast.Node) bool {
+			is, ok := n.(*ast.IfStmt)
+			if !ok {
+				return true
+			}
+			cmp := false
+			ast.Inspect(is.Cond, func(m ast.Node) bool {
+				if be, ok := m.(*ast.BinaryExpr); ok && (be.Op == token.GTR || be.Op == token.GEQ) {
+					lhs := ast.Unparen(be.X)
+					if b2, ok := lhs.(*ast.BinaryExpr); ok && b2.Op == token.ADD {
+						lhs = ast.Unparen(b2.X)
+					}
+					if incr[exprStr(lhs)] {
+						cmp = true
+					}
+				}
+				return true
+			})
+			if !cmp {
+				return true
+			}
+			for _, st := range is.Body.List {
+				if rs, ok := st.(*ast.ReturnStmt); ok && len(rs.Results) > 0 && exprStr(rs.Results[len(rs.Results)-1]) != "nil" {
+					rejects = true
+				}
+			}
+			return true
+		})
+		return rejects
 	}
 	isGuard := func(fd *ast.FuncDecl) bool {
 		if isGuardFn(fd) {
 			return true
 		}
-		// if acl := p.enter(...); acl != nil { return … }
-		found := false
+		// x := p.enter(...) … if x != nil { return … }   (also as the init of the if)
+		guardResult := map[types.Object]bool{}
 		ast.Inspect(fd.Body, func(n ast.Node) bool {
-			is, ok := n.(*ast.IfStmt)
-			if !ok || is.Init == nil {
-				return true
-			}
-			as, ok := is.Init.(*ast.AssignStmt)
+			as, ok := n.(*ast.AssignStmt)
 			if !ok || len(as.Rhs) != 1 {
 				return true
 			}
@@ -687,6 +720,33 @@ func c01Rec(r *Run) {
 			}
 			cal, _ := calleeOf(info, c).(*types.Func)
 			if cal == nil || !isGuardFn(declOf[cal]) {
+				return true
+			}
+			for _, l := range as.Lhs {
+				if id, ok := l.(*ast.Ident); ok && id.Name != "_" {
+					o := info.Defs[id]
+					if o == nil {
+						o = info.Uses[id]
+					}
+					if o != nil {
+						guardResult[o] = true
+					}
+				}
+			}
+			return true
+		})
+		found := false
+		ast.Inspect(fd.Body, func(n ast.Node) bool {
+			is, ok := n.(*ast.IfStmt)
+			if !ok {
+				return true
+			}
+			be, ok := ast.Unparen(is.Cond).(*ast.BinaryExpr)
+			if !ok || be.Op != token.NEQ || exprStr(be.Y) != "nil" {
+				return true
+			}
+			id, ok := ast.Unparen(be.X).(*ast.Ident)
+			if !ok || !guardResult[info.Uses[id]] {
 				return true
 			}
 			for _, st := range is.Body.List {
